@@ -4,3 +4,4 @@ import SimVerif.Lemmas.Nms
 import SimVerif.Props.C14
 import SimVerif.Props.C20
 import SimVerif.Props.C17
+import SimVerif.Props.C16
